@@ -47,8 +47,13 @@ class C19(Property):
         "Area.to_minimal_json", "Row", "Row.can_fit", "Row.add", "pack", "adjust_cross_origin_area",
         "build_area_rows")] + [
         ("antismash/outputs/html/js.py", "convert_regions"),
+        ("antismash/common/secmet/features/protocluster.py", "SideloadedProtocluster.__init__"),
+        ("antismash/common/secmet/features/subregion.py", "SideloadedSubRegion.__init__"),
         ("antismash/outputs/html/js.py", "convert_cds_features"),
         ("antismash/common/secmet/features/region/structures.py", "Region.get_unique_protoclusters"),
+        ("antismash/common/secmet/features/region/structures.py", "Region.candidate_clusters"),
+        ("antismash/common/secmet/features/region/structures.py", "Region.subregions"),
+        ("antismash/common/secmet/features/candidate_cluster/structures.py", "CandidateCluster.protoclusters"),
         ("antismash/common/secmet/features/feature.py", "Feature.start"),
         ("antismash/common/secmet/features/feature.py", "Feature.end"),
         ("antismash/common/secmet/features/feature.py", "Feature.is_contained_by"),
@@ -64,21 +69,24 @@ class C19(Property):
             "whole record) filled with 0-6 protoclusters (extent + core on a coarse grid with +-1 jitter, symmetric and "
             "asymmetric neighbourhoods, cores before/after/across the origin), 0-6 candidate clusters over random subsets "
             "(all four kinds), 0-3 subregions and 0-6 genes incl. origin-spanning forward/reverse and multi-exon genes; "
-            "regions built directly (`Region(candidates, subregions)`) or by `create_candidate_clusters` + "
+            "twins: two different protoclusters with the same extent and product (other core and/or a "
+            "sideloaded annotation); regions built directly (`Region(candidates, subregions)`) or by `create_candidate_clusters` + "
             "`create_regions`; plus `pack` alone on unsorted area lists; thorough/deep adds the small scope L=24, protocluster "
             "extents/cores on a 4-grid of the ring (every single and every pair exhaustively, triples sampled), each with "
             "and without an origin-spanning subregion and with origin-spanning genes.  non-trivial = the region extends over the origin "
             "(origin-spanning or whole circular record) with >=1 origin-spanning area or gene, or some row holds >=2 "
             "areas; distinct by canonical input")
     TRUSTED = [
-        "area strings irrelevant to the geometry (prefix, category, tool, css) are not modelled or observed",
+        "css classes are not modelled or observed (product, prefix, category and tool of the areas are)",
         "`get_description` is stubbed in the harness (HTML rendering); dna/translation fields are not observed",
-        "the order of `region.get_unique_protoclusters()`, `region.candidate_clusters`, `region.subregions` and "
-        "`region.cds_children` is taken as delivered by the real objects (the theorems hold for every order); for "
-        "origin-spanning regions the delivered protocluster order is checked against the modelled sort key",
+        "the order of `region.candidate_clusters`, `region.subregions` and `region.cds_children` is taken as delivered "
+        "by the real objects (the theorems hold for every order); `get_unique_protoclusters` is modelled: the delivered "
+        "objects are compared by identity with the members of the region's candidate clusters and with the model, the "
+        "delivered order must be sorted by the modelled key (the order of equal-key protoclusters is CPython's set order "
+        "and is taken as delivered)",
         "region / candidate locations are computed by the real `connect_locations` (C04/C06) and fed to the model",
         "Biopython location classes; Python `id()` uniqueness for group ids (modelled as a counter, compared after "
-        "renaming by first occurrence)",
+        "renaming by first occurrence) and for telling protocluster objects apart",
     ]
 
     # ------------------------------------------------------------------ generators
@@ -138,7 +146,23 @@ class C19(Property):
             core = self.rand_interval(rng, ext[0], ext[1], max(step // 2, 1))
             if rng.random() < 0.04:     # malformed on purpose: core not inside the extent
                 core = (max(ext[0] - 1, 0), core[1]) if rng.random() < 0.5 else (core[0], min(core[1] + 1, wlen))
-            protos.append({"loc": place(ext), "core": place(core), "product": f"p{i}"})
+            protos.append({"loc": place(ext), "core": place(core), "product": f"p{i}",
+                           "tool": rng.choice(["rule-based-clusters", "tool"]),
+                           "category": rng.choice(["PKS", "NRPS", "other"])})
+        # two *different* protoclusters with the same extent and product: a detected cluster and a sideloaded
+        # annotation of it, or the same product found twice with different cores
+        if protos and rng.random() < 0.3:
+            for _ in range(rng.choice([1, 1, 2])):
+                src = rng.choice(protos)
+                twin = dict(src)
+                r2 = rng.random()
+                if r2 < 0.6:
+                    ext = self._offsets_of(src["loc"], w0, L)
+                    core = self.rand_interval(rng, ext[0], ext[1], max(step // 2, 1))
+                    twin["core"] = place(core)
+                if r2 > 0.4:
+                    twin["sideloaded"] = True
+                protos.append(twin)
         cands = []
         if protos:
             idxs = list(range(len(protos)))
@@ -154,7 +178,8 @@ class C19(Property):
             ext = self.rand_interval(rng, 0, wlen, step)
             if layout == "whole" and rng.random() < 0.3:
                 ext = (0, wlen)
-            subs.append({"loc": place(ext), "label": f"s{i}"})
+            subs.append({"loc": place(ext), "label": rng.choice([f"s{i}", f"s{i}", ""]),
+                         "sideloaded": rng.random() < 0.4, "tool": rng.choice(["tool", "external"])})
         if not cands and not subs:
             subs.append({"loc": place(self.rand_interval(rng, 0, wlen, step)), "label": "s0"})
         genes = []
@@ -196,6 +221,14 @@ class C19(Property):
         mode = "pipeline" if (protos and rng.random() < 0.15) else "direct"
         return {"kind": "regions", "L": L, "circular": circular, "protos": protos, "cands": cands,
                 "subs": subs, "genes": genes, "mode": mode}
+
+    @staticmethod
+    def _offsets_of(loc: Dict[str, Any], w0: int, L: int) -> Tuple[int, int]:
+        """window offsets (a, b) of a location produced by `place`"""
+        start = loc["parts"][0][0]
+        length = sum(p[1] - p[0] for p in loc["parts"])
+        a = (start - w0) % L
+        return a, a + length
 
     def rand_pack(self, rng: random.Random) -> Dict[str, Any]:
         L = rng.choice([24, 60, 100])
@@ -257,10 +290,15 @@ class C19(Property):
             cands = [{"kind": "single", "members": [i]} for i in range(len(protos))]
             if len(protos) > 1:
                 cands.append({"kind": "neighbouring", "members": list(range(len(protos)))})
-            for subs in ([], [{"loc": ring_loc(20, 8, L), "label": "s0"}]):
-                total += 1
-                yield {"kind": "regions", "L": L, "circular": True, "protos": protos, "cands": cands,
-                       "subs": subs, "genes": genes, "mode": "direct"}
+            variants = [protos]
+            if len(protos) == 2 and protos[0]["loc"] == protos[1]["loc"]:
+                # same extent: also as twins (same product, the second a sideloaded annotation)
+                variants.append([protos[0], dict(protos[1], product=protos[0]["product"], sideloaded=True)])
+            for plist in variants:
+                for subs in ([], [{"loc": ring_loc(20, 8, L), "label": "s0"}]):
+                    total += 1
+                    yield {"kind": "regions", "L": L, "circular": True, "protos": plist, "cands": cands,
+                           "subs": subs, "genes": genes, "mode": "direct"}
         # complete for <= 2 protoclusters of the family (x with/without a subregion); triples are sampled
         self.exhaustive_done = full
         self.extra_coverage = {"small_scope_cases": total, "small_scope_singles": len(singles),
@@ -275,20 +313,28 @@ class C19(Property):
         if kind in ("proto", "cand"):
             out["core"] = common.location_json(feature.core_location)
         if kind == "proto":
-            out["product"] = feature.product
+            from antismash.common.secmet.features.protocluster import SideloadedProtocluster
+            out.update({"product": feature.product, "tool": feature.tool, "category": feature.product_category,
+                        "sideloaded": isinstance(feature, SideloadedProtocluster)})
         elif kind == "cand":
             out["single"] = feature.kind == feature.kinds.SINGLE
             out["product"] = f"CC {feature.get_candidate_cluster_number()}: {feature.kind}"
         else:
-            out["product"] = feature.label
+            from antismash.common.secmet.features.subregion import SideloadedSubRegion
+            out.update({"product": feature.label, "tool": feature.tool,
+                        "sideloaded": isinstance(feature, SideloadedSubRegion)})
         return out
 
     @staticmethod
-    def _area_json(a: Dict[str, Any]) -> Dict[str, Any]:
+    def _area_json(a: Dict[str, Any]) -> Optional[Dict[str, Any]]:
+        """the harness's own reading of one minimal area object (None when a mandatory key is missing)"""
+        if any(key not in a for key in ("start", "end", "kind", "height")):
+            return None
         return {"start": int(a["start"]), "end": int(a["end"]), "kind": KINDS.get(a["kind"], a["kind"]),
                 "height": int(a["height"]), "nstart": int(a.get("neighbouring_start", a["start"])),
                 "nend": int(a.get("neighbouring_end", a["end"])), "product": a.get("product", ""),
-                "group": int(a.get("group", 0))}
+                "group": int(a.get("group", 0)), "prefix": a.get("prefix", ""), "category": a.get("category", ""),
+                "tool": a.get("tool", "")}
 
     def run_impl(self, case: Dict[str, Any]) -> Dict[str, Any]:
         logging.disable(logging.CRITICAL)       # `add_region` logs refused inputs
@@ -296,6 +342,8 @@ class C19(Property):
             return self.run_pack(case)
         from antismash.common.secmet.features import CandidateCluster, Protocluster, Region, SubRegion
         from antismash.common.secmet.features.candidate_cluster.structures import CandidateClusterKind
+        from antismash.common.secmet.features.protocluster import SideloadedProtocluster
+        from antismash.common.secmet.features.subregion import SideloadedSubRegion
         from antismash.common.secmet.test.helpers import DummyCDS, DummyRecord
         from antismash.outputs.html import js
         js.get_description = lambda *args, **kwargs: ""     # renders HTML, irrelevant here
@@ -307,11 +355,19 @@ class C19(Property):
             for i, g in enumerate(case["genes"]):
                 rec.add_cds_feature(DummyCDS(location=common.make_location(g["loc"]), locus_tag=f"g{i}",
                                              translation="M"))
-            protos = [Protocluster(common.make_location(p["core"]), common.make_location(p["loc"]), "tool",
-                                   p["product"], 10, 10, "rule") for p in case["protos"]]
+            protos = []
+            for p in case["protos"]:
+                if p.get("sideloaded"):
+                    protos.append(SideloadedProtocluster(common.make_location(p["core"]), common.make_location(p["loc"]),
+                                                         "external", p["product"]))
+                else:
+                    protos.append(Protocluster(common.make_location(p["core"]), common.make_location(p["loc"]),
+                                               p.get("tool", "tool"), p["product"], 10, 10, "rule",
+                                               product_category=p.get("category", "other")))
             for p in protos:
                 rec.add_protocluster(p)
-            subs = [SubRegion(common.make_location(s["loc"]), "tool", label=s["label"]) for s in case["subs"]]
+            subs = [(SideloadedSubRegion if s.get("sideloaded") else SubRegion)(
+                common.make_location(s["loc"]), s.get("tool", "tool"), label=s["label"]) for s in case["subs"]]
             for s in subs:
                 rec.add_subregion(s)
             if case["mode"] == "pipeline":
@@ -329,12 +385,24 @@ class C19(Property):
             return {"rejected": err_kind(exc), "msg": str(exc)[:160]}
         regions = []
         for region in rec.get_regions():
+            # the region's protoclusters, independently of get_unique_protoclusters: the members of its
+            # candidate clusters, told apart by object identity
+            idents: Dict[int, int] = {}
+            cands_json = []
+            for cand in region.candidate_clusters:
+                cj = self._feat_json(cand, "cand")
+                cj["members"] = [{"id": idents.setdefault(id(p), len(idents)), "feat": self._feat_json(p, "proto")}
+                                 for p in cand.protoclusters]
+                cands_json.append(cj)
+            delivered = []
+            for k, p in enumerate(region.get_unique_protoclusters()):
+                delivered.append({"id": idents.get(id(p), 100000 + k), "feat": self._feat_json(p, "proto")})
             regions.append({
                 "L": L, "circular": case["circular"],
                 "region": common.location_json(region.location),
                 "subs": [self._feat_json(s, "sub") for s in region.subregions],
-                "cands": [self._feat_json(c, "cand") for c in region.candidate_clusters],
-                "protos": [self._feat_json(p, "proto") for p in region.get_unique_protoclusters()],
+                "cands": cands_json,
+                "delivered": delivered,
                 "genes": [common.location_json(cds.location) for cds in region.cds_children],
                 "names": [cds.get_name() for cds in region.cds_children],
             })
@@ -352,8 +420,12 @@ class C19(Property):
                 tags.append(o["locus_tag"][:-6] if split else o["locus_tag"])
                 orfs.append({"start": int(o["start"]), "end": int(o["end"]), "strand": int(o["strand"]),
                              "split": split, "group": int(o.get("group", 0))})
+            read = [self._area_json(a) for a in jsr["clusters"]]
+            raw = [[[k, (v if isinstance(v, str) else int(v))] for k, v in a.items()]
+                   for a in canon_groups(jsr["clusters"])]
             info["impl"] = {"start": int(jsr["start"]), "end": int(jsr["end"]),
-                            "areas": canon_groups([self._area_json(a) for a in jsr["clusters"]]),
+                            "areas": canon_groups(read) if all(r is not None for r in read) else None,
+                            "areas_raw": raw, "area_keys": [list(a.keys()) for a in jsr["clusters"]],
                             "orfs": canon_groups(orfs),
                             "tags_ok": [t for t, _ in itertools.groupby(tags)] == names}
         return {"regions": regions}
@@ -409,13 +481,21 @@ class C19(Property):
             m_orfs = canon_groups(model["orfs"])
             if m_areas != impl["areas"]:
                 corr = False
-                details.append(f"areas: model {m_areas} vs implementation {impl['areas']}")
+                details.append(f"areas: model {m_areas} vs implementation {impl['areas'] or impl['areas_raw']}")
+            elif model["area_keys"] != impl["area_keys"]:
+                corr = False
+                details.append(f"to_minimal_json keys: model {model['area_keys']} vs implementation {impl['area_keys']}")
             if m_orfs != impl["orfs"] or not impl["tags_ok"]:
                 corr = False
                 details.append(f"orfs: model {m_orfs} vs implementation {impl['orfs']}")
             if (model["start"], model["end"]) != (impl["start"], impl["end"]):
                 corr = False
                 details.append(f"range: model {model['start']}..{model['end']} vs implementation {impl['start']}..{impl['end']}")
+            got = [p["id"] for p in info["delivered"]]
+            if sorted(got) != sorted(d["unique"]):
+                corr = False
+                details.append(f"get_unique_protoclusters: model delivers objects {sorted(d['unique'])}, "
+                               f"implementation {sorted(got)}")
             if not spec["protos_sorted"]:
                 corr = False
                 details.append("get_unique_protoclusters order is not sorted by the modelled key")
@@ -423,10 +503,15 @@ class C19(Property):
             in_scope = in_scope and sa and sg
             if sa:
                 bad = [k for k, v in spec["areas"].items() if not v] + ([] if spec["announced"] else ["announced"])
+                if not spec["delivered_ok"]:
+                    bad.append("unique_protoclusters")
+                    members = sorted({m["id"] for cj in info["cands"] for m in cj["members"]})
+                    details.insert(0, f"the region's candidate clusters hold protocluster objects {members}, "
+                                      f"get_unique_protoclusters delivered {got}")
                 if bad:
                     spec_ok = False
                     details.insert(0, f"areas violate {bad}: region {info['region']['parts']} L={info['L']} "
-                                      f"areas {impl['areas']}")
+                                      f"areas {impl['areas'] or impl['areas_raw']}")
             if sg:
                 bad = [k for k, v in spec["orfs"].items() if not v]
                 if bad:
@@ -434,8 +519,9 @@ class C19(Property):
                     details.insert(0, f"orfs violate {bad}: region {info['region']['parts']} L={info['L']} "
                                       f"genes {info['genes']} orfs {impl['orfs']}")
             inf = d["info"]
-            heights = {a["height"] for a in impl["areas"]}
-            drawn = len([a for a in impl["areas"] if not a["group"]]) + len({a["group"] for a in impl["areas"] if a["group"]})
+            areas = impl["areas"] or []
+            heights = {a["height"] for a in areas}
+            drawn = len([a for a in areas if not a["group"]]) + len({a["group"] for a in areas if a["group"]})
             shared_row = drawn > len(heights)
             if (inf["extend"] and (inf["n_crossing"] or inf["n_gene_crossing"])) or shared_row:
                 nontrivial = True
@@ -446,8 +532,13 @@ class C19(Property):
                 tags.append("gene-crossing" + ("-split" if not inf["region_crosses"] else "-shift"))
             if shared_row:
                 tags.append("shared-row")
+            if inf["n_tied"]:
+                tags.append("tied-protoclusters")
+                nontrivial = True
             tags.append("scope-areas" if sa else "out-of-scope-areas")
             tags.append("scope-genes" if sg else "out-of-scope-genes")
+            if info["genes"]:
+                tags.append("genes-by-location-theorem" if inf["genes_loc_ok"] else "genes-by-view-theorem-only")
         return Judgement(corr, spec_ok, in_scope=in_scope, nontrivial=nontrivial, tags=tuple(sorted(set(tags))),
                          detail="; ".join(details)[:3000])
 
